@@ -51,7 +51,7 @@ func genCrash(r *engine.PRNG, p *FaultsPlan) engine.Plan {
 				m.Len = r.PickInt(0, 1, 5, 31, 32, 33, 60, 200)
 			}
 			w.Msgs = append(w.Msgs, m)
-			sz += int64(32 + m.Len + 8)
+			sz += int64(32 + m.bodyBound())
 			f := SecFault{Kind: "fail", Budget: -1}
 			if r.Chance(1, 4) {
 				f.Budget = r.Range(0, int64(32+m.Len))
